@@ -124,6 +124,8 @@ def role_if_interval : List Nat := [29]
 def role_if_builtin : List Nat := [26]
 /-- statements starting with `if: global_profiler` -/
 def role_if_global : List Nat := [23]
+/-- statements starting with `builtins.__dict__['profile'] = prof` -/
+def role_kp_builtins_set : List Nat := [27, 70]
 /-- statements starting with `builtins.__dict__['profile'] = profile` -/
 def role_builtins_set : List Nat := [70]
 /-- statements starting with `builtins.__dict__['profile'] = old_profile` -/
